@@ -6,6 +6,7 @@
 import PhotVerif.Model.Isophote
 import PhotVerif.Gen.IsophoteTable
 import PhotVerif.Gen.IsophoteFns
+import PhotVerif.Gen.ForwardTable
 import PhotVerif.Proofs.FieldInst
 import Mathlib.Algebra.Order.Field.Rat
 import Mathlib.Data.List.Chain
@@ -445,5 +446,14 @@ theorem generated_resetSma [MathOps Rat] (lin : Bool) (sma step : Rat) :
   unfold Gen.EGeom.resetSma resetSma
   have h1 : (1.0 : Rat) = 1 := by norm_num
   cases lin <;> simp [h1]
+
+/-- TABLE OBLIGATION: see `Gen/ForwardTable.lean` - every delegating call in the isophote modules passes on each value the caller
+    holds under the callee's own parameter name (parameters, locals, `self.<name>` attributes).  Seed C20-r7 dropped the local
+    `fixed_parameters` from `minimum_amplitude_sample.update(...)`, which silently frees every fixed parameter. -/
+theorem no_dropped_arguments : Gen.ForwardTable.droppedIn Gen.ForwardTable.scopeC20 =
+    -- intended: the central-pixel call `fit_isophote(0.0, ...)` does not use `linear`; the gradient sample is built from the
+    -- individual geometry fields at a different sma, not from the geometry object
+    [("isophote/ellipse.py", "fit_image", "fit_isophote", "linear"),
+     ("isophote/sample.py", "EllipseSample._get_gradient", "EllipseSample", "geometry")] := by decide
 
 end PhotVerif.C20
